@@ -118,7 +118,7 @@ impl Fam for Attrs {
         let mut v = Vec::new();
         for a in attr_strings(level) {
             for (b, c) in [(0u8, true), (255, false)] {
-                for d in ['x', '<', '"', '\'', '&', ' ', 'é', '\n'] {
+                for d in ['x', '<', '"', '\'', '&', ' ', 'é', '\n', '\u{1F600}', '\u{FEFF}'] {
                     v.push(Attrs { a: a.clone(), b, c, d });
                 }
             }
@@ -881,8 +881,8 @@ impl Fam for Numbers {
     fn values(_level: usize) -> Vec<Self> {
         let mut v = Vec::new();
         for (a, b) in [(i64::MIN, u64::MAX), (0, 0), (-1, 1)] {
-            for (c, d) in [(i8::MIN, 0.5f32), (i8::MAX, -3.25), (0, 1e10)] {
-                for (e, f) in [(u128::MAX, f64::MIN_POSITIVE), (0, -0.0), (7, 123456.789)] {
+            for (c, d) in [(i8::MIN, 0.5f32), (i8::MAX, -3.25), (0, 1e10), (-1, f32::INFINITY), (1, f32::MIN)] {
+                for (e, f) in [(u128::MAX, f64::MIN_POSITIVE), (0, -0.0), (7, 123456.789), (1 << 64, f64::NEG_INFINITY), (u64::MAX as u128, f64::MAX)] {
                     v.push(Numbers { a, b, c, d, e, f });
                 }
             }
